@@ -1,4 +1,5 @@
 import Verif.Proofs.C09Xml
+import Verif.Proofs.C09XmlLexSound
 /-!
 # C09 (XML) — property-level theorems
 
@@ -155,6 +156,50 @@ theorem xml_second_pass_defined (o : XmlOpts) (ts : List XTok) (hwf : ∀ x ∈ 
   simp only [Bool.false_eq_true, if_false] at hl'
   have hsh := lexOk_shape _ .content hl'
   exact ⟨_, hre, hwf', hl', hsh.1, hsh.2, hz', fun o2 => xml_output_relexes_partial o2 _ hwf' hl' hz'⟩
+
+/-- **xml_lex_sound** (full; specification side only): whatever the independent tokeniser returns follows the grammar of
+token streams — with `xml_lex_roundtrip` it is a retraction of byte strings onto grammatical streams. -/
+theorem xml_lex_sound (s : List Char) (vs : List XTok) (h : xmlTokens s = some vs) :
+    canonOk false vs = true ∧ xmlTokens (bytesOf vs) = some vs :=
+  ⟨lex_sound s vs h, lex_roundtrip vs (lex_sound s vs h)⟩
+
+/-- one pass over bytes with the independent tokeniser as the front end of the model of `xml.Minify` -/
+def passBytes (o : XmlOpts) (s : List Char) : Option (List Char) := (xmlTokens s).map (xmlMinify o)
+
+/-- any number of passes, each with its own options -/
+def passes : List XmlOpts → List Char → Option (List Char)
+  | [], s => some s
+  | o :: os, s => (passBytes o s).bind (passes os)
+
+/-- **xml_accepted_in_accepted_out** (full, no guard, hypotheses on BYTES only): for EVERY byte string the independent
+tokeniser accepts (every document that is well-formed at the token level) and every option set, the output of the
+model of `xml.Minify` on its tokens is accepted by the tokeniser again and re-tokenises to exactly the intended stream.
+(With the tokeniser as front end the data of a PI is one raw item, so the trigger of K-C09-Xml-1 cannot hold; the
+real lexer's deviations from this front end are K-C09-Xml-1, K-C09-Xml-4 and K-C09-Xml-5.) -/
+theorem xml_accepted_in_accepted_out (o : XmlOpts) (s : List Char) (vs : List XTok) (h : xmlTokens s = some vs) :
+    xmlTokens (xmlMinify o vs) = some (view (emit o true vs)) ∧ canonOk false (view (emit o true vs)) = true := by
+  have hc := lex_sound s vs h
+  obtain ⟨hl, hz⟩ := canon_lexOk _ _ (Nat.le_refl _) false hc
+  simp only [Bool.false_eq_true, if_false] at hl
+  exact xml_output_relexes_partial o vs (canon_wfTokP _ _ (Nat.le_refl _) false hc) hl hz
+
+/-- **xml_passes_defined** (full): minification can be repeated for ever — for every accepted document and every finite
+sequence of option sets, every pass is defined and its output is accepted by the tokeniser again. -/
+theorem xml_passes_defined (os : List XmlOpts) : ∀ (s : List Char), (xmlTokens s).isSome = true →
+    ∃ out, passes os s = some out ∧ (xmlTokens out).isSome = true := by
+  induction os with
+  | nil => intro s h; exact ⟨s, rfl, h⟩
+  | cons o os ih =>
+    intro s h
+    cases hs : xmlTokens s with
+    | none => rw [hs] at h; cases h
+    | some vs =>
+      have h2 := (xml_accepted_in_accepted_out o s vs hs).1
+      obtain ⟨out, e1, e2⟩ := ih (xmlMinify o vs) (by rw [h2]; rfl)
+      exact ⟨out, by simp [passes, passBytes, hs, e1], e2⟩
+
+example : passes [⟨false⟩, ⟨true⟩, ⟨false⟩] "<a k = 'v'> <![CDATA[ x ]]> <b></b><?p q ?></a >".toList =
+    some "<a k='v'>x<b/><?p q ?></a>".toList := by decide
 
 /-- tokens of `<a><![CDATA[ x ]]></a>` -/
 def exIdem : List XTok :=
